@@ -625,6 +625,9 @@ struct ares_event_thread;
 typedef struct ares_event_thread ares_event_thread_t;
 
 void          ares_event_thread_destroy(ares_channel_t *channel);
+/*! Interrupt the event thread's wait (if the channel has one) so that it
+ *  recomputes how long it may sleep */
+void          ares_event_thread_wake_channel(const ares_channel_t *channel);
 ares_status_t ares_event_thread_init(ares_channel_t *channel);
 
 
